@@ -31,9 +31,9 @@ func (nopCloser) Write(p []byte) (int, error) { return len(p), nil }
 func (nopCloser) Close() error                { return nil }
 
 var (
-	srv     *httptest.Server
-	curMu   sync.Mutex
-	curH    http.Handler
+	srv   *httptest.Server
+	curMu sync.Mutex
+	curH  http.Handler
 )
 
 func TestMain(m *testing.M) {
@@ -50,7 +50,7 @@ func TestMain(m *testing.M) {
 
 // Val is a replayable description of a Go value handed to the success handler.
 type Val struct {
-	K    string   `json:"k"` // nil bool int float str list map struct nan inf chan func
+	K    string   `json:"k"` // nil bool int float str bigstr (I = length) list map struct nan inf chan func
 	B    bool     `json:"b,omitempty"`
 	I    int64    `json:"i,omitempty"`
 	F    float64  `json:"f,omitempty"`
@@ -79,6 +79,8 @@ func (v Val) build() interface{} {
 		return v.F
 	case "str":
 		return string(v.S)
+	case "bigstr":
+		return strings.Repeat("0123456789abcdef", int(v.I)/16+1)[:v.I]
 	case "list":
 		l := make([]interface{}, 0, len(v.Elem))
 		for _, e := range v.Elem {
@@ -124,7 +126,7 @@ func (v Val) marshalable() bool {
 
 // Err describes the error handed to the error handler.
 type Err struct {
-	Kind   string `json:"kind"` // system complex app plain status
+	Kind   string `json:"kind"` // system complex app plain status app+status
 	Code   int64  `json:"code,omitempty"`
 	Msg    string `json:"msg,omitempty"`
 	Status int    `json:"status,omitempty"`
@@ -146,6 +148,14 @@ type statusErr struct {
 func (s *statusErr) Status() int   { return s.status }
 func (s *statusErr) Error() string { return s.msg }
 
+// appStatusErr is an application error (it has a code of its own) that also names an HTTP status.
+type appStatusErr struct {
+	appErr
+	status int
+}
+
+func (a *appStatusErr) Status() int { return a.status }
+
 func (e Err) build() error {
 	switch e.Kind {
 	case "system":
@@ -156,6 +166,8 @@ func (e Err) build() error {
 		return &appErr{int(e.Code), e.Msg}
 	case "status":
 		return &statusErr{e.Status, e.Msg}
+	case "app+status":
+		return &appStatusErr{appErr{int(e.Code), e.Msg}, e.Status}
 	}
 	return errors.New(e.Msg)
 }
@@ -283,7 +295,7 @@ func runCase(c Case) error {
 	default:
 		e := c.Err
 		switch e.Kind {
-		case "system", "complex", "app":
+		case "system", "complex", "app", "app+status":
 			if rr.Code != 200 {
 				return fmt.Errorf("%s error answered status %d, want 200 with the code in the body", e.Kind, rr.Code)
 			}
@@ -318,7 +330,7 @@ func runCase(c Case) error {
 		if cerr == nil {
 			return fmt.Errorf("client reports success (code %d, nil error) for an error response: status %d body %q", code, rr.Code, clip(body))
 		}
-		if (e.Kind == "system" || e.Kind == "complex" || e.Kind == "app") && e.Code > -(1<<53) && e.Code < 1<<53 && int64(code) != e.Code {
+		if (e.Kind == "system" || e.Kind == "complex" || e.Kind == "app" || e.Kind == "app+status") && e.Code > -(1<<53) && e.Code < 1<<53 && int64(code) != e.Code {
 			return fmt.Errorf("client reports code %d, the error's code is %d", code, e.Code)
 		}
 	}
@@ -387,7 +399,7 @@ func genVal(t *rapid.T, depth int, allowBad bool) Val {
 var codes = []int64{1, -1, 2, 100, 1 << 31, -(1 << 31), 1<<31 - 1, 1 << 53, -(1 << 53), 1<<53 + 1, math.MaxInt64, math.MinInt64}
 
 func genErr(t *rapid.T) Err {
-	e := Err{Kind: rapid.SampledFrom([]string{"system", "complex", "app", "plain", "plain", "status"}).Draw(t, "ek")}
+	e := Err{Kind: rapid.SampledFrom([]string{"system", "complex", "app", "plain", "plain", "status", "status", "app+status"}).Draw(t, "ek")}
 	if rapid.Bool().Draw(t, "codek") {
 		e.Code = rapid.SampledFrom(codes).Draw(t, "code")
 	} else {
@@ -402,8 +414,9 @@ func genErr(t *rapid.T) Err {
 	default:
 		e.Msg = strings.ToValidUTF8(string(genStr(t)), "?") + "e"
 	}
-	if e.Kind == "status" {
-		e.Status = rapid.SampledFrom([]int{400, 401, 403, 404, 409, 500, 502, 503, 599}).Draw(t, "status")
+	if e.Kind == "status" || e.Kind == "app+status" {
+		// every class an error may name; 1xx/2xx are not error statuses
+		e.Status = rapid.SampledFrom([]int{300, 301, 302, 304, 305, 399, 400, 401, 403, 404, 409, 499, 500, 502, 503, 599}).Draw(t, "status")
 	}
 	return e
 }
@@ -455,6 +468,38 @@ func TestHandlersAndClient(t *testing.T) {
 			t.Fatalf("%v (replay %s)", err, p)
 		}
 	})
+}
+
+// TestLargeValues: success values whose envelope is far larger than any buffer on the way.
+func TestLargeValues(t *testing.T) {
+	rec := ev.New(prop, "large-values", "success handler + client with one string of {2^16, 2^20, 4*2^20-64, 4*2^20, 5*2^20+1; thorough: 32*2^20} bytes, alone and inside a map, with and without callback; oracle as in handlers-and-client; all non-trivial")
+	rec.Exhaustive()
+	sizes := []int64{1 << 16, 1 << 20, 4<<20 - 64, 4 << 20, 5<<20 + 1}
+	if ev.Thorough() {
+		sizes = append(sizes, 32<<20)
+	}
+	i := 0
+	for _, n := range sizes {
+		for _, wrap := range []bool{false, true} {
+			for _, cb := range []string{"", "cb"} {
+				i++
+				if i%ev.Shards() != ev.Shard() {
+					continue
+				}
+				v := Val{K: "bigstr", I: n}
+				if wrap {
+					v = Val{K: "map", Keys: []string{"a", "big"}, Elem: []Val{{K: "int", I: 7}, v}}
+				}
+				c := Case{Success: true, Val: &v, Callback: cb, Server: "Oryx"}
+				err := ev.Try(func() error { return runCase(c) })
+				rec.Case(true, ev.Hash(c), []string{"success"}, func() any { return c })
+				if err != nil {
+					p := ev.Fail(prop, "handlers-and-client", c, err)
+					t.Fatalf("%v (replay %s)", err, p)
+				}
+			}
+		}
+	}
 }
 
 func replayers() map[string]ev.Replayer {
